@@ -23,6 +23,7 @@ package main
 import (
 	"encoding/json"
 	"fmt"
+	"math"
 	"math/rand"
 	"os"
 	"sort"
@@ -149,6 +150,7 @@ func c15Reversed(n int) []int {
 // c15Answer is what FindClosests returned, references named by their scenario numbers (0-based, sorted).
 type c15Answer struct {
 	maxe    int
+	idppm   int // returned best identity, in millionths (rounded)
 	best    []int
 	problem string // panic text or inconsistency between the returned slices
 }
@@ -158,13 +160,15 @@ func c15Closest(fn string, q []byte, db *c15DB) c15Answer {
 	seq := obiseq.NewBioSequence("query", append([]byte(nil), q...), "")
 	var bests obiseq.BioSequenceSlice
 	var idxs []int
+	var id float64
 	a.problem = c15Guard(func() {
 		if fn == "obitag2" {
-			bests, a.maxe, _, _, idxs = obitag2.FindClosests(seq, db.refs, db.counts, false)
+			bests, a.maxe, id, _, idxs = obitag2.FindClosests(seq, db.refs, db.counts, false)
 		} else {
-			bests, a.maxe, _, _, idxs = obitag.FindClosests(seq, db.refs, db.counts, false)
+			bests, a.maxe, id, _, idxs = obitag.FindClosests(seq, db.refs, db.counts, false)
 		}
 	})
+	a.idppm = int(math.Round(id * 1e6))
 	if a.problem != "" {
 		return a
 	}
@@ -625,6 +629,7 @@ type c15Event struct {
 	Kk     int        `json:"kk"`     // index: which reference (1-based)
 	Inb    []int      `json:"inb"`    // closest: 1 when the reference was returned
 	Maxe   int        `json:"maxe"`   // closest: returned distance
+	Idppm  int        `json:"idppm"`  // closest: returned best identity in millionths
 	Idx    [][]int    `json:"idx"`    // index: [[distance, taxid], ...]
 	Taxid  int        `json:"taxid"`  // assign
 	Common int        `json:"common"` // kmer: Common4Mer(q, refs[1])
@@ -826,6 +831,7 @@ func c15RunClosest(ev *c15Event, q []byte, refs [][]byte) {
 	a := c15Closest(ev.Fn, q, db)
 	ev.Err = a.problem
 	ev.Maxe = a.maxe
+	ev.Idppm = a.idppm
 	ev.Inb = make([]int, len(refs))
 	for _, b := range a.best {
 		ev.Inb[b] = 1
